@@ -397,7 +397,14 @@ func runCheck(o *Options) (int, *Evidence) {
 	prelude := w.prelude() + preludeExtra
 	for _, x := range execs {
 		for _, q := range append(x.qs, x.retCovers...) {
-			jobs = append(jobs, &job{q: q, text: prelude + x.render(q)})
+			body := x.render(q)
+			pre := prelude
+			if strings.Contains(body, "u2f") || strings.Contains(body, "fmul") || strings.Contains(body, "fround") {
+				for _, a := range sp.SMTAxioms {
+					pre += "(assert " + a + ")\n"
+				}
+			}
+			jobs = append(jobs, &job{q: q, text: pre + body})
 		}
 	}
 	tmp, _ := os.MkdirTemp("", "govc-"+o.prop+"-")
